@@ -35,9 +35,11 @@ def run(c):
         "host rules are the Appendix-B transcription in Async/Host.lean (`Host.End`)",
         "cabi2 scripts move the body between two harness tasks while operations are registered; v1 (cabi1) moves are C18's known finding "
         "waitable-v1-cross-task and are not generated here",
-        "a failure is filed under future-default-write-stranded-on-task-cancel only if its clause AND its position match (end-of-trace "
-        "clause of a channel whose default write started after EVENT_CANCEL and blocked, the dangling registration of that channel's "
-        "writable handle, the ledger entry of that default value, host leftovers = one end per such channel, the byte leak); the trace "
-        "before a host trap / the start of a panic is judged as a prefix",
+        "a failure is filed under future-default-write-stranded-on-task-cancel by its CAUSE in the trace (export task cancelled by the "
+        "host and exited while a default write — made before or by the cancel — is blocked and its writable end never dropped): then every "
+        "end-of-trace symptom (not produced when the same trace is judged up to the task's exit without the end-of-trace rules) about "
+        "that channel, its writable handle, its ledger entries, the host's leftovers if exactly one end per such channel, and the byte "
+        "leak belong to the finding; run-level failures and symptoms at other channels / handles stay reportable; the trace before a "
+        "host trap / the start of a panic is judged as a prefix",
         "native x86-64; export-mode traces are checked against the spec side only (executor model: C22)",
     ]
